@@ -594,7 +594,17 @@ func check(prop, tier string) int {
 	os.RemoveAll(outDir)
 	os.MkdirAll(outDir, 0o755)
 	outs := make([]*workerOut, nw)
-	var wg sync.WaitGroup
+	var wg, plainWG sync.WaitGroup
+	stopFile := filepath.Join(outDir, "plain-workers-done")
+	nPlain := nw - tc.Race
+	earlyStop := tier == "thorough" // quick: race workers run their full share
+	if nPlain > 0 && tc.Race > 0 && earlyStop {
+		plainWG.Add(nPlain)
+		go func() {
+			plainWG.Wait()
+			os.WriteFile(stopFile, []byte("done\n"), 0o644)
+		}()
+	}
 	for i := 0; i < nw; i++ {
 		wg.Add(1)
 		go func(i int) {
@@ -605,6 +615,8 @@ func check(prop, tier string) int {
 			if i >= nw-tc.Race {
 				b = raceBin
 				isRace = true
+			} else if nPlain > 0 && tc.Race > 0 && earlyStop {
+				defer plainWG.Done()
 			}
 			outp := filepath.Join(outDir, fmt.Sprintf("w%02d.out", i))
 			hp := filepath.Join(outDir, fmt.Sprintf("w%02d.hashes", i))
@@ -613,6 +625,9 @@ func check(prop, tier string) int {
 				fmt.Sprintf("SIM_FROM=%d", i), fmt.Sprintf("SIM_TO=%d", tc.Runs), fmt.Sprintf("SIM_STRIDE=%d", nw),
 				"SIM_OUT=" + outp, "SIM_HASHES=" + hp, fmt.Sprintf("SIM_BUDGET_MS=%d", tc.BudgetMS),
 				"GORACE=halt_on_error=0 log_path=" + filepath.Join(outDir, fmt.Sprintf("w%02d.race", i)),
+			}
+			if isRace && nPlain > 0 && earlyStop {
+				envs = append(envs, "SIM_STOPFILE="+stopFile)
 			}
 			code, stderr := runWorker(b, envs, time.Duration(tc.BudgetMS)*time.Millisecond+300*time.Second)
 			wo, _ := parseOut(outp)
@@ -827,7 +842,7 @@ func check(prop, tier string) int {
 	if len(zero) > 0 {
 		fmt.Printf("note: probes stuck at zero: %v\n", zero)
 	}
-	if total.Runs < tc.Runs*9/10 && exit == 0 {
+	if total.Runs < tc.Runs*9/10 && exit == 0 && tc.Race == 0 {
 		fmt.Fprintf(os.Stderr, "note: only %d of %d planned runs were executed within the wall-clock budget\n", total.Runs, tc.Runs)
 	}
 	if exit == 0 && harness > 0 {
